@@ -43,7 +43,7 @@ pub struct SSummary {
 }
 
 pub fn witness(s: &SSummary) {
-    cover!(s.ended && s.yielded >= 2, "stream ended after yielding at least two items");
+    cover!(s.ended && s.yielded >= 1, "stream ended after yielding at least one item");
     cover!(!s.ended && s.polls == s.rounds, "stream not ended after all rounds");
 }
 
@@ -519,6 +519,32 @@ impl<const K: usize> StrCase for ExtMerge<K> {
     }
 }
 
+pub struct ExtChain<const K: usize>;
+impl<const K: usize> StrCase for ExtChain<K> {
+    const N: usize = 2;
+    const FAM: SFam = SFam::Chain;
+    type S = <(Strm, Strm) as futures_concurrency::stream::Chain>::Stream;
+    fn make() -> Self::S {
+        futures_concurrency::stream::StreamExt::chain(Strm::new(0, K), Strm::new(1, K))
+    }
+    fn norm(res: Poll<Option<Tok>>) -> SOut {
+        item1(res)
+    }
+}
+
+pub struct ExtZip<const K: usize>;
+impl<const K: usize> StrCase for ExtZip<K> {
+    const N: usize = 2;
+    const FAM: SFam = SFam::Zip;
+    type S = <(Strm, Strm) as futures_concurrency::stream::Zip>::Stream;
+    fn make() -> Self::S {
+        futures_concurrency::stream::StreamExt::zip(Strm::new(0, K), Strm::new(1, K))
+    }
+    fn norm(res: Poll<Option<(Tok, Tok)>>) -> SOut {
+        Tup2Zip::<K>::norm(res)
+    }
+}
+
 // wait_until on streams ----------------------------------------------------------------------
 
 pub struct WaitUntilStream<const K: usize>;
@@ -621,6 +647,10 @@ macro_rules! sproof {
     };
 }
 
+sproof!(merge_arr2_k1_r3, 7, ArrMerge<2, 1>, 3);
+sproof!(merge_tup2_k1_r3, 7, Tup2Merge<1>, 3);
+sproof!(zip_arr2_k1_r3, 7, ArrZip<2, 1>, 3);
+sproof!(zip_tup2_k1_r3, 7, Tup2Zip<1>, 3);
 sproof!(merge_arr2_k2_r5, 7, ArrMerge<2, 2>, 5);
 sproof!(merge_tup2_k2_r5, 7, Tup2Merge<2>, 5);
 sproof!(merge_ext2_k2_r5, 7, ExtMerge<2>, 5);
@@ -640,6 +670,10 @@ sproof!(zip_arr3_k1_r5, 7, ArrZip<3, 1>, 5);
 sproof!(zip_tup3_k1_r5, 7, Tup3Zip<1>, 5);
 sproof!(zip_tup1_k2_r4, 7, Tup1Zip<2>, 4);
 
+sproof!(chain_arr2_k1_r4, 7, ArrChain<2, 1>, 4);
+sproof!(chain_tup2_k1_r4, 7, Tup2Chain<1>, 4);
+sproof!(chain_ext2_k1_r4, 7, ExtChain<1>, 4);
+sproof!(zip_ext2_k2_r5, 7, ExtZip<2>, 5);
 sproof!(chain_arr2_k2_r6, 8, ArrChain<2, 2>, 6);
 sproof!(chain_tup2_k2_r6, 8, Tup2Chain<2>, 6);
 sproof!(chain_arr2_k2_r4_drop, 7, ArrChain<2, 2>, 4, drop);
@@ -679,6 +713,7 @@ mod vec_proofs {
     sproof!(zip_vec2_k2_r5, 7, VecZip<2, 2>, 5);
     sproof!(zip_vec2_k2_r4_drop, 7, VecZip<2, 2>, 4, drop);
     sproof!(chain_vec2_k2_r6, 8, VecChain<2, 2>, 6);
+    sproof!(chain_vec2_k1_r4, 7, VecChain<2, 1>, 4);
     sproof!(chain_vec0_r1, 7, VecChain<0, 1>, 1, empty);
     fair_proof!(fair_merge_vec2_r5, 7, VecMerge<2, 6>, 5, 2);
 }
